@@ -200,6 +200,15 @@ CHECKS["C17"] = dict(
     parts=[rapid_part("rapid", "compose", "TestC17", 3000, 30000, race=True, replay_test="TestC17Replay", replay_reps=3)],
 )
 
+CHECKS["C18"] = dict(
+    technique="property-based testing (rapid) of the ReAct agent against a reference ReAct loop: generated model scripts, chunkings, tool sets, return-directly sets, step limits; Generate vs Stream differential",
+    level_text="Generated model scripts (0-4 assistant turns with 0-3 tool calls each and content), streamed in a generated chunking (tool calls in the first non-empty chunk for the default detector; also after content with a whole-stream detector), invokable or streamable tools, return-directly subsets, MaxStep 0 (default) or 1-8, optional MessageModifier. A scripted model records a snapshot of every input it is given; tools record (tool, arguments, call id). Oracle: a reference loop written from the statement: number of model calls, the exact history given to every model call, the multiset of tool invocations, the final answer (first assistant message without tool calls, or the result of the first return-directly call), or the step-limit error when the loop needs more supersteps than allowed; checked for Generate and for the concatenated Stream.",
+    level_note="The default streaming tool-call detector's documented precondition is respected by construction. Unknown tool names are C17's business.",
+    rule="rapid draws script, chunkings, tools, return-directly set, MaxStep, modifier; non-trivial = (>= 2 model turns and a turn with >= 2 tool calls) or (a return-directly hit after a normal turn) or the step limit reached; distinct = FNV-1a of case JSON",
+    assumptions=["the model mock answers the k-th call of a run with the k-th script entry"],
+    parts=[rapid_part("rapid", "flow/agent/react", "TestC18", 3000, 30000, replay_test="TestC18Replay")],
+)
+
 # properties not claimed (with reason); everything else not in CHECKS is "not built yet"
 NOT_APPLICABLE = {}
 
